@@ -319,6 +319,51 @@ pub fn gen_structured(rng: &mut Rng) -> (Vec<u8>, Vec<usize>) {
     (buf, name_starts)
 }
 
+/// "Any octet buffer and start offset": the buffer is padded out so that the chunk under test
+/// starts around or beyond the reach of a 14-bit pointer (16 384) or of a 16-bit offset
+/// (65 536), and that chunk ends in a pointer back into the low part of the buffer (or, as a
+/// negative, to itself or beyond the 14-bit reach it cannot have).
+fn far_chunk(rng: &mut Rng, mut buf: Vec<u8>, low_starts: Vec<usize>) -> (Vec<u8>, Vec<usize>) {
+    let base = *rng.pick(&[16_383usize, 16_384, 16_390, 32_768, 65_530, 65_535, 65_536, 65_540, 66_000, 70_000, 131_072, 131_080]);
+    let at = (base + rng.below(6)).max(buf.len());
+    // a few more pointer targets high up in the 14-bit range
+    let mut targets: Vec<usize> = low_starts.clone();
+    buf.resize(at.min(16_300).max(buf.len()), 0);
+    if buf.len() >= 16_300 && at > 16_384 {
+        for _ in 0..3 {
+            targets.push(buf.len());
+            let l = gen_label(rng, 9);
+            buf.push(l.len() as u8);
+            buf.extend_from_slice(&l);
+        }
+        buf.push(0);
+        targets.push(buf.len() - 1);
+    }
+    if buf.len() < at {
+        buf.resize(at, 0);
+    }
+    let start = buf.len();
+    for _ in 0..rng.below(4) {
+        let l = gen_label(rng, 12);
+        buf.push(l.len() as u8);
+        buf.extend_from_slice(&l);
+    }
+    let target = match rng.below(8) {
+        0 => start & 0x3fff,
+        1 => rng.below(0x4000),
+        _ if !targets.is_empty() => *rng.pick(&targets) & 0x3fff,
+        _ => 0,
+    };
+    buf.push(0xc0 | (target >> 8) as u8);
+    buf.push(target as u8);
+    buf.extend_from_slice(&rng.bytes_below(3));
+    let mut starts = vec![start];
+    if let Some(t) = low_starts.first() {
+        starts.push(*t);
+    }
+    (buf, starts)
+}
+
 pub fn run(ctx: &Ctx, rep: &mut Report) {
     let max_len = if ctx.is_miri() { if ctx.thorough { 3 } else { 2 } } else { 5 };
     if ctx.only_case.is_none() {
@@ -333,6 +378,7 @@ pub fn run(ctx: &Ctx, rep: &mut Report) {
         } else {
             gen_structured(&mut rng)
         };
+        let (buf, name_starts) = if case % 16 == 5 { far_chunk(&mut rng, buf, name_starts) } else { (buf, name_starts) };
         let mut starts: Vec<usize> = name_starts;
         starts.push(rng.below(buf.len() + 3));
         starts.push(buf.len());
@@ -340,6 +386,9 @@ pub fn run(ctx: &Ctx, rep: &mut Report) {
             let class = check_one(rep, &buf, start);
             rep.class(&format!("s:{}", class));
             rep.hist(if class.starts_with("ok") { "structured:accepted" } else { "structured:rejected" });
+            if start >= 16_383 {
+                rep.hist(&format!("far-start:{}:{}", if start >= 65_536 { "beyond-64k" } else { "beyond-16k" }, if class.starts_with("ok") { "accepted" } else { "rejected" }));
+            }
         }
         if case % 1000 == 3 {
             rep.sample(|| Json::obj(vec![("kind", Json::s("structured")), ("buffer", Json::hex(&buf))]));
